@@ -12,6 +12,9 @@ package checks
 import (
 	"bytes"
 	"fmt"
+	"reflect"
+	"strings"
+	"unsafe"
 
 	"github.com/syndtr/goleveldb/leveldb/filter"
 	"github.com/syndtr/goleveldb/leveldb/opt"
@@ -72,6 +75,18 @@ func c13AltFilters(c *Ctx, n int) {
 				an = append(an, name(a))
 			}
 			c.Res.Eval(fmt.Sprintf("alt-filters/%d/%d", seed, si), true)
+			// differential tie of the choice (lean/GoLevel/Model/FilterSelect.lean): the policy the real reader adopted
+			mainN := "-"
+			if ro.Filter != nil {
+				mainN = name(ro.Filter)
+			}
+			adopted := "none"
+			if fv := reflect.ValueOf(rd).Elem().FieldByName("filter"); fv.IsValid() && !fv.IsNil() {
+				if f, ok := reflect.NewAt(fv.Type(), unsafe.Pointer(fv.UnsafeAddr())).Elem().Interface().(filter.Filter); ok && f != nil {
+					adopted = f.Name()
+				}
+			}
+			c.Lean(strings.TrimSpace(fmt.Sprintf("tbl select %s %s %s", name(wp), mainN, strings.Join(an, " "))), adopted)
 			for ki, key := range keys {
 				rk, rv, err := rd.Find(key, true, nil)
 				fk, err2 := rd.FindKey(key, true, nil)
